@@ -22,8 +22,8 @@ CLAIMED = {
              "LIMIT/OFFSET wins, independent options commute, an alias goes to the FROM item added last; (C) that model is "
              "compared call by call (all fields) with the implementation on reflection-driven histories from the entry points.",
         note="Partial: that the separators are the grammar's keywords for the slot and that part texts do not disturb the clause "
-             "structure is evaluated by the reader on every case, not proved; the API model omits ApplyIf, ApplySelectJson, "
-             "AppendWith and the WITH builders (those are covered by (A) only); the reader is a hand-written formalisation of gram.y at clause level. D4/D5/D6 and the "
+             "structure is evaluated by the reader on every case, not proved; the API model omits ApplyIf and "
+             "ApplySelectJson (function arguments; covered by (A) and C19); the reader is a hand-written formalisation of gram.y at clause level. D4/D5/D6 and the "
              "D7 sites in condition lists are recorded findings, not repaired.",
         ref="DESIGN.md §6 C01"),
     "C02": dict(
@@ -137,10 +137,10 @@ CLAIMED = {
              "strings. Tie: Go's regexp (verif hook) vs the model's matcher on every ASCII char and every boundary code point "
              "of the Unicode classes in 17 position classes plus grammar-shaped and mutated candidates; every accepted string "
              "is rendered and the emitted text lexed.",
-        note="Partial in one respect: the theorem represents each non-ASCII rune by one byte >= 0x80 (the lexer treats all such "
-             "bytes as identifier characters); the multi-byte encoding is exercised by the tests, its equivalence proof is "
-             "pending. standard_conforming_strings = on. Known findings D8 (two classes), D9. Trusted: translator (regexp/syntax "
-             "parse -> AST, minterm table), lexer formalisation.",
+        note="C07_safe_bytes lifts the certificate's statement (one byte 0x80 per non-ASCII rune) to the real UTF-8 bytes, valid or "
+             "not (Meta/MultiByte.v: all bytes >= 0x80 act alike on the lexer's control and further ones are absorbed; the decoder "
+             "cuts blocks of 1 to 4 such bytes). standard_conforming_strings = on. Known findings D8 (two classes), D9. Trusted: "
+             "translator (regexp/syntax parse -> AST, minterm table), lexer formalisation.",
         ref="DESIGN.md §6 C07"),
     "C08": dict(
         technique="Coq proof of regular-language inclusion by a checked certificate (same machinery as C07, type shape observer)",
@@ -249,11 +249,11 @@ CLAIMED = {
              "finite values). Tie: reflection-driven composition of every exported constructor/method incl. incomplete "
              "statements; recover() around ToSQL; every generated value is checked to satisfy wfe and to render "
              "identically in the model. C20_builder_call_preserves_wf / C20_reachable_no_panic: every statement reachable "
-             "from Select / InsertInto / Update / DeleteFrom by any number of modelled builder calls with well-formed "
+             "from Select / SelectJson / InsertInto / Update / DeleteFrom / With / WithRecursive by any number of modelled builder calls with well-formed "
              "arguments is well-formed, hence renders without panic; the API model (Model/Api.v) is compared call by call "
              "with the implementation, and no recorded call meeting the hypotheses yields a value whose rendering panics.",
         note="Partial: for expression constructors (fn package, operators) reachable => wfe is checked on generated values only; "
-             "ApplyIf, ApplySelectJson, AppendWith and the WITH builders are not in the API model; Go runtime stack exhaustion / "
+             "ApplyIf and ApplySelectJson (function arguments) are not in the API model; Go runtime stack exhaustion / "
              "allocation failure not modelled.",
         ref="DESIGN.md §6 C20"),
 }
